@@ -34,11 +34,17 @@ def inFragWith (tbl : Op → Option Entry) : Term → Bool
      | some e => e.guard p (args.map Term.typeOf)
      | none => false) && (args.map (inFragWith tbl)).all id
 
-/-- guard of `walk_equals`: the extensional comparison of two constant array values is part
-of the model (`BoolRules.arrayValuesEq`) but its proof belongs to the array family; until
-then equalities between array-sorted terms are outside the *proved* fragment -/
+/-- guard of `walk_equals`: equalities between array-sorted terms whose index sort is a bit-vector
+sort **wider than 8 bits** (and whose element sort is not an array sort) are outside the *proved*
+fragment. The extensional comparison of two constant array values (`BoolRules.arrayValuesEq`, part of
+the model and checked by K and S on every sort) is proved over Int, Real, String, Bool and bit-vector
+indices of width ≤ 8 (`Proofs/SimpArrayEq.lean`). Over a wider bit-vector index sort the canonical
+array values of the reference semantics (`Core/Val.lean`, `smallDomain`) are not extensional for values
+that assign all `2^w ≥ 512` indices — the case in which the method answers "equal although the defaults
+differ". For the other array sorts (array-sorted elements, array or custom index sort) the method does
+not compare and rebuilds the equality. -/
 def equalsGuard : Payload → List (Option Ty) → Bool
-  | _, some (.array _ _) :: _ => false
+  | _, some (.array (.bv w) e) :: _ => decide (w ≤ 8) || e.isArray
   | _, _ => true
 
 /-- the rule table -/
